@@ -3,6 +3,7 @@ package parser
 
 import (
 	"slices"
+	"strconv"
 
 	c "github.com/paulsonkoly/calc/combinator"
 	"github.com/paulsonkoly/calc/lexer"
@@ -46,8 +47,26 @@ func acceptToken(str string) c.Parser {
 
 // The grammar ////////////////////////////////////////////////////////////////////////////////////////////////////////
 
-var intLit = acceptTerm(token.IntLit, "integer literal")
-var floatLit = acceptTerm(token.FloatLit, "float literal")
+// literals that don't fit the value types are rejected here, the token wrapper can only fail by panicking
+var intLit = c.Accept(
+	func(tok c.Token) bool {
+		ctok := tok.(token.Type)
+		_, err := strconv.Atoi(ctok.Value)
+		return ctok.Type == token.IntLit && err == nil
+	},
+	"integer literal",
+	tokenWrapper{},
+)
+
+var floatLit = c.Accept(
+	func(tok c.Token) bool {
+		ctok := tok.(token.Type)
+		_, err := strconv.ParseFloat(ctok.Value, 64)
+		return ctok.Type == token.FloatLit && err == nil
+	},
+	"float literal",
+	tokenWrapper{},
+)
 var stringLit = acceptTerm(token.StringLit, "string literal")
 
 func varName(input c.RollbackLexer) ([]c.Node, *Error) {
